@@ -56,7 +56,10 @@ def defined_imports():
     return out
 
 
-def trampoline(shared=False, extra=None):
+LOGCNT, DONECNT, LOGBASE = 0x100, 0x104, 0x1000
+
+
+def trampoline(shared=False, extra=None, pages=4):
     """Module importing every WASI function wasi.c defines (both namespaces) and exporting one trampoline each."""
     m = Module()
     names = []
@@ -68,9 +71,9 @@ def trampoline(shared=False, extra=None):
         names.append((ns, name))
     spawn = m.import_func('wasi', 'thread-spawn', [I32], [I32])
     if shared:
-        m.mems.append((4, 4, True))
+        m.mems.append((pages, pages, True))
     else:
-        m.mems.append((4, None, False))
+        m.mems.append((pages, None, False))
     m.exports.append(('memory', 'memory', 0))
     for i, (ns, name) in enumerate(names):
         ps = SIGS[name]
@@ -78,6 +81,13 @@ def trampoline(shared=False, extra=None):
         body = [('local.get', j) for j in range(len(ps))] + [('call', i)]
         m.add_func(ps, res, [], body, export=('p1_' if ns.endswith('preview1') else 'un_') + name)
     m.add_func([I32], [I32], [], [('local.get', 0), ('call', spawn)], export='thread_spawn')
+    if shared:
+        # wasi_thread_start(tid, arg): atomically append (tid, arg) to a log in shared memory, then bump the done counter
+        body = [('i32.const', LOGCNT), ('i32.const', 1), ('i32.atomic.rmw.add', 2, 0), ('i32.const', 8), ('i32.mul',), ('local.set', 2),
+                ('local.get', 2), ('local.get', 0), ('i32.atomic.store', 2, LOGBASE),
+                ('local.get', 2), ('local.get', 1), ('i32.atomic.store', 2, LOGBASE + 4),
+                ('i32.const', DONECNT), ('i32.const', 1), ('i32.atomic.rmw.add', 2, 0), ('drop',)]
+        m.add_func([I32, I32], [], [(1, I32)], body, export='wasi_thread_start')
     if extra:
         extra(m)
     return m
